@@ -99,7 +99,8 @@ func vfShape(shape int, a, b, c *vfLeaf, min int) (search.Searcher, func(d uint6
 		bs, err := NewBooleanSearcher(must(a), should(min, b), should(0, c), sc(), opts)
 		vfAssert(err == nil, "boolean builds")
 		return bs, func(d uint64) bool {
-			return vfAll(a.has(d), !c.has(d), vfAny(min == 0, b.has(d)))
+			// the single should clause must supply min matches: impossible for min >= 2
+			return vfAll(a.has(d), !c.has(d), vfB2I(b.has(d)) >= min)
 		}
 	case 5: // should-only (a, b) with must-not c
 		bs, err := NewBooleanSearcher(nil, should(min, a, b), should(0, c), sc(), opts)
